@@ -55,7 +55,7 @@ type cliScenario struct {
 	Dels        []cliDeliver `json:"deliveries"`
 	CloseAt     int          `json:"close_at"` // odd tick, -1: closed at the end
 	DoubleClose bool         `json:"double_close"`
-	LogDropped  bool         `json:"log_dropped"` // nclient6: WithLogDroppedPackets
+	LogDropped  bool         `json:"log_dropped"`    // nclient6: WithLogDroppedPackets
 	Dest        int          `json:"dest,omitempty"` // destination selector (adapter.setDest): other ports, broadcast, zoned IPv6 addresses
 }
 
